@@ -229,7 +229,7 @@ fn dead_stats(items: &[Item], depth: u32, st: &mut Stats) {
 }
 
 fn is_alias(src: &str) -> bool {
-    src.starts_with("\\A") || src.starts_with("\\M")
+    src.starts_with("\\A") || src.starts_with("\\M") || src.starts_with(['~', '!', '|', '?', '&'])
 }
 
 /// Walk the tree the way TeX would under `rule` and count what is exercised.
@@ -382,6 +382,9 @@ pub const BOUNDARY: [i32; 30] = [
 pub fn preamble() -> String {
     let mut s = String::new();
     s.push_str("\\let\\Ait\\iftrue \\let\\Aif\\iffalse \\let\\Ain\\ifnum \\let\\Aio\\ifodd \\let\\Aic\\ifcase \\let\\Aor\\or \\let\\Ael\\else \\let\\Afi\\fi %\n");
+    // the same through ACTIVE CHARACTERS: \let~=\fi copies the tagged command into the
+    // active-character table, a different table from the one control sequences live in
+    s.push_str("\\catcode`\\~=13 \\catcode`\\!=13 \\catcode`\\|=13 \\catcode`\\?=13 \\catcode`\\&=13 \\let~\\fi \\let!\\else \\let|\\or \\let?\\iftrue \\let&\\iffalse %\n");
     s.push_str("\\def\\iffoo{Lif;}\\def\\fifoo{Lfi;}\\def\\elsefoo{Lel;}\\def\\orfoo{Lor;}\\def\\Ma{Pa;}\\def\\Mb{Pb;}%\n");
     for (i, v) in REGISTERS.iter().enumerate() {
         s.push_str(&format!("\\count{}={}\\relax ", i + 1, v));
@@ -404,6 +407,16 @@ enum Role {
 }
 
 impl Role {
+    fn active(self) -> Option<&'static str> {
+        match self {
+            Role::Fi => Some("~"),
+            Role::Else => Some("!"),
+            Role::Or => Some("|"),
+            Role::IfTrue => Some("?"),
+            Role::IfFalse => Some("&"),
+            _ => None,
+        }
+    }
     fn primitive(self) -> &'static str {
         match self {
             Role::IfTrue => "\\iftrue ",
@@ -493,6 +506,9 @@ impl<'a> Gen<'a> {
             role.primitive().to_string(),
             role.alias().to_string(),
         ];
+        if let Some(a) = role.active() {
+            options.push(a.to_string());
+        }
         for (i, (r, _)) in self.mutable.iter().enumerate() {
             if *r == role {
                 options.push(format!("{} ", MUTABLE_NAMES[i]));
